@@ -71,6 +71,8 @@ type DatabaseI interface {
 type compactionAction struct {
 	pathsToCompact []string
 	totalRecords   uint64
+	// startsAtOldestTable tells whether the selected run begins with the oldest table there is
+	startsAtOldestTable bool
 }
 
 type memStoreFlushAction struct {
